@@ -6,8 +6,11 @@ From Coq Require Import ZArith List Bool.
 Import ListNotations.
 From ClapModel Require Import Base.Bytes Base.Machine.
 From ClapModel Require Import Parse.Cmd Parse.Build Parse.Valid Parse.Matcher Parse.Errors Parse.Validator Parse.Parser.
-From ClapModel Require Import ParseProofs.Relations.
+From ClapModel Require Import ParseProofs.Relations ParseProofs.RelationsTree.
 From ClapModel Require Import ParseProofs.Safe ParseProofs.Invariant ParseProofs.Totality ParseProofs.TotalityMain ParseProofs.IndexInv.
+From ClapModel Require Import ParseProofs.Globals.
+From RecordUpdate Require Import RecordSet.
+Import RecordSetNotations.
 Open Scope N_scope.
 
 (** (R4) presence is "the entry's source is not DefaultValue" -- what [check_explicit] tests *)
@@ -112,3 +115,73 @@ Theorem C03_level_sound_closed : forall fuel c toks st0 st,
   Relations c (mt st).
 Proof. exact level_relations. Qed.
 Print Assumptions C03_level_sound_closed.
+
+(** ---------------------------------------------------------------------------------------
+    EVERY LEVEL OF THE CHAIN (round 2; definitions and proofs in ParseProofs/RelationsTree.v).
+    [validated_chain c m]: read from the root downwards, the reported matches [m] are at every
+    level of the recorded subcommand chain a matcher that satisfies [Relations] against that
+    level's own definition (the child the parser builds when it descends); the chain ends at a
+    level without subcommand or at an external subcommand. *)
+
+(** the token loop never touches the recorded subcommand, and hands over an external subcommand
+    only where the definition allows one (every command, every state, every token list) *)
+Theorem C03_loop_keeps_sub : forall c s toks ls st,
+  mt_sub (mt st) = s ->
+  match parse_loop c toks ls st with
+  | ROk lr => mt_sub (mt (lr_st lr)) = s
+              /\ match lr with LExternal _ _ _ => is_set s_allow_external c = true | _ => True end
+  | RErr _ st' => mt_sub (mt st') = s
+  | RPanic _ => True
+  end.
+Proof. exact parse_loop_sub. Qed.
+Print Assumptions C03_loop_keeps_sub.
+
+(** any level of the recursion, any depth: a successful [get_matches_with] of a tree in which no
+    level ignores errors returns a validated chain *)
+Theorem C03_level_sound_tree : forall fuel c toks st0 st,
+  tree_ok fuel c -> strict_tree fuel c -> G c idx_inv trivV st0 -> mt_sub (mt st0) = None ->
+  get_matches_with fuel c toks st0 = ROk st ->
+  validated_chain c (into_inner (mt st)).
+Proof. exact gmw_chain. Qed.
+Print Assumptions C03_level_sound_tree.
+
+(** the class: [no_ignore] (no node sets [ignore_errors]) is inherited by every command the
+    parser builds on the way down *)
+Theorem C03_no_ignore_inherited : forall f x,
+  plain x = true -> no_ignore x = true -> strict_tree f (build_self x).
+Proof. exact strict_tree_of. Qed.
+Print Assumptions C03_no_ignore_inherited.
+
+(** the whole parse: for every valid [plain] definition in which no node ignores errors and every
+    token list, a successful parse reports (up to the copy of global values, which keeps the
+    chain of names) a chain that was validated at EVERY level *)
+Theorem C03_parse_sound_tree : forall c0 toks m,
+  plain c0 = true -> no_ignore c0 = true -> valid c0 = true ->
+  do_parse c0 toks = OOk m ->
+  exists st, run_level c0 toks = ROk st /\ m = reported c0 st
+             /\ validated_chain (build_self c0) (into_inner (mt st))
+             /\ Globals.chain m = Globals.chain (into_inner (mt st)).
+Proof. exact parse_sound_tree. Qed.
+Print Assumptions C03_parse_sound_tree.
+
+Theorem C03_parse_top_sound_tree : forall c0 argv m,
+  plain c0 = true -> no_ignore c0 = true ->
+  (forall b, valid (c0 <| c_bin_name := b |>) = true) -> valid c0 = true ->
+  parse_top c0 argv = OOk m ->
+  exists c1 toks st,
+    (c1 = c0 \/ exists b, c1 = c0 <| c_bin_name := Some b |>)
+    /\ run_level c1 toks = ROk st /\ m = reported c1 st
+    /\ validated_chain (build_self c1) (into_inner (mt st))
+    /\ Globals.chain m = Globals.chain (into_inner (mt st)).
+Proof. exact parse_top_sound_tree. Qed.
+Print Assumptions C03_parse_top_sound_tree.
+
+(** non-vacuity: a two-level definition with live relations at both levels; an argv that reaches
+    the child, one that ends in an external subcommand, one rejected at the child level *)
+Theorem C03_tree_nonvacuous :
+  plain t_cmd = true /\ no_ignore t_cmd = true /\ valid t_cmd = true
+  /\ (exists m, do_parse t_cmd t_toks = OOk m /\ Globals.chain m = [[115]])
+  /\ (exists m, do_parse t_cmd [dd [120;120]; [122]; [121]] = OOk m /\ Globals.chain m = [[122]])
+  /\ (exists e, do_parse t_cmd [dd [120;120]; [115]; dd [97;97]] = OErr e /\ e_kind e = EMissingRequiredArgument).
+Proof. exact parse_sound_tree_nonvacuous. Qed.
+Print Assumptions C03_tree_nonvacuous.
